@@ -345,10 +345,17 @@ def design_level(v, pid, tier):
         add_mc(v, w, 'reachability witness (vacuity guard): a held self-locking chain re-simulated by a second Solver after reset must be reachable', expect_violation='Witness_DeepRerun')
         if w['violated'] != 'Witness_DeepRerun':
             raise Machinery('vacuity guard: MC_Solver does not reach reset + rerun on a second Solver of a held self-locking chain')
+        if pid in ('C03', 'C13'):
+            add_mc(v, mc_cached('MC_Solver', 'MC_Solver_user.cfg'), 'Solver.tla with USER interventions between calls (duty cycle assigned: 0 / -1; output re-indexed at rest or with a speed): '
+                   'all invariants; the step relation from the live attributes; RefinesLockAbs with the abstraction\'s UserPwm / UserSpd actions')
+            uw = mc_cached('MC_Solver', 'MC_Solver_userwit.cfg')
+            add_mc(v, uw, 'reachability witness: a held chain that moved between two held instants because the user gave it a speed', expect_violation='Witness_UserMovesHeld')
+            if uw['violated'] != 'Witness_UserMovesHeld':
+                raise Machinery('vacuity guard: the user actions of Solver.tla do not reach a re-indexed held chain')
         if pid == 'C16':
             add_mc(v, mc_cached('MC_Solver', 'MC_Solver_stop.cfg'), 'Solver.tla with stop conditions (sensors x operators x thresholds): invariant C16_FirstHit')
     if pid == 'C13':
-        add_mc(v, mc_cached('LockAbs', 'LockAbs.cfg', workers=4, coverage=True), need_actions=('First', 'Later', 'Fresh'), label='LockAbs.tla: sign abstraction of the lock machine, finite and exhaustive = all real parameter values; SafeSign, HeldStill, HeldPos, ResumeOnlyWhenDriven, NeverClampedWithoutSL')
+        add_mc(v, mc_cached('LockAbs', 'LockAbs.cfg', workers=4, coverage=True), need_actions=('First', 'Later', 'Fresh', 'UserPwm', 'UserSpd'), label='LockAbs.tla: sign abstraction of the lock machine, finite and exhaustive = all real parameter values; SafeSign, HeldStill, HeldPos, ResumeOnlyWhenDriven, NeverClampedWithoutSL')
     if pid in ('C14', 'C15'):
         add_mc(v, mc_cached('MC_Control', 'MC_Control.cfg', workers=1), 'Control.tla lemmas: arbitration over 9^3 proposal triples, inclusive timer window, StartLimitCurrent root => current law = limit')
 
